@@ -35,6 +35,7 @@ Print Assumptions C36_persistent.
 Theorem C36_counter_keeps_alive : forall s t ts k d, reach s -> thr s t = Alive -> gts s t = Some ts ->
   tss s ts = TsLive t k d -> incb s t = true -> 2 <= k.
 Proof. exact counter_keeps_alive. Qed.
+Print Assumptions C36_counter_keeps_alive.
 
 (* different live threads never share a thread state *)
 Theorem C36_distinct : forall s t1 t2 ts, reach s -> finalized s = false ->
@@ -69,6 +70,7 @@ Print Assumptions C36_no_leak.
 
 Theorem C36_runner_sound : forall s e s', reach s -> mstep s e = Some s' -> reach s'.
 Proof. exact mstep_reach. Qed.
+Print Assumptions C36_runner_sound.
 
 (* non-vacuity: two threads call back, overlap, thread 0 exits, a third thread's first callback
    sweeps its state; then finalization *)
